@@ -194,53 +194,62 @@ def itemsPhase (c : Cfg α) (s : State α) : State α :=
 def flushCore (c : Cfg α) (force : Bool) (s : State α) : State α :=
   itemsPhase c (hdrPhase c (snapPhase c force s))
 
+/-- `write_pvp_array`: with AmpSF the channel's format function gets its scaling and formatted signal writes become possible
+    (this happens before the `item_bytes` guard of `putData`) -/
+def markCanReg (c : Cfg α) (s : State α) (i : Nat) : State α :=
+  if c.ampSF then { s with el := setEl s.el (c.sigIdx i) { s.el (c.sigIdx i) with canReg := true } } else s
+
+/-- the tail of `write_pvp_array` / `write_support_array` for element `k` once the arguments are validated:
+    in memory `item_bytes = ...` (raises when already set), on a real file the memory map is overwritten and `item_written = True` -/
+def putData (c : Cfg α) (s : State α) (k : Nat) (data : Blk α) : State α × Out :=
+  if c.inMem then
+    if (s.el k).bytes.isSome then (s, .refused)
+    else ({ s with el := setEl s.el k { s.el k with bytes := some data, done := markRows (s.el k).done 0 1 } }, .ok)
+  else ({ s with ws := ⟨false, (c.item k).off, data⟩ :: s.ws,
+                 el := setEl s.el k { s.el k with written := true, done := markRows (s.el k).done 0 1 } }, .ok)
+
+/-- a validated signal chunk (rows `r0 ..` of element `k`): stored in the array (in memory) or in the memory map (real file, where
+    `item_written` is set as soon as the sample count equals the expected count) -/
+def putChunk (c : Cfg α) (s : State α) (k r0 : Nat) (data : Blk α) : State α :=
+  let it := c.item k
+  let e := s.el k
+  let nr := data.len / it.rowBytes
+  let cnt := e.count + data.len
+  if c.inMem then
+    { s with el := setEl s.el k { e with count := cnt, done := markRows e.done r0 nr,
+                                         store := ⟨false, r0 * it.rowBytes, data⟩ :: e.store } }
+  else
+    { s with ws := ⟨false, it.off + r0 * it.rowBytes, data⟩ :: s.ws,
+             el := setEl s.el k { e with count := cnt, done := markRows e.done r0 nr,
+                                         written := e.written || decide (cnt = it.size) } }
+
+/-- a PVP write is refused before anything happens: closed writer, unknown channel, wrong number of vectors -/
+def pvpBad (c : Cfg α) (s : State α) (i : Nat) (data : Blk α) : Prop :=
+  s.closed = true ∨ ¬ i < c.nchan ∨ data.len ≠ (c.item i).size
+def supBad (c : Cfg α) (s : State α) (j : Nat) (data : Blk α) : Prop :=
+  s.closed = true ∨ ¬ j < c.nsup ∨ data.len ≠ (c.item (c.supIdx j)).size
+/-- a signal write is refused: unknown channel, formatted data before the AmpSF is known, closed writer, not whole rows inside the array -/
+def sigBad (c : Cfg α) (s : State α) (i r0 : Nat) (data : Blk α) (raw : Bool) : Prop :=
+  ¬ i < c.nchan ∨ (raw = false ∧ (s.el (c.sigIdx i)).canReg = false) ∨ s.closed = true ∨
+  (c.item (c.sigIdx i)).rowBytes = 0 ∨ data.len = 0 ∨ data.len % (c.item (c.sigIdx i)).rowBytes ≠ 0 ∨
+  (c.item (c.sigIdx i)).rows < r0 + data.len / (c.item (c.sigIdx i)).rowBytes
+
+instance (c : Cfg α) (s : State α) (i : Nat) (d : Blk α) : Decidable (pvpBad c s i d) := by unfold pvpBad; infer_instance
+instance (c : Cfg α) (s : State α) (j : Nat) (d : Blk α) : Decidable (supBad c s j d) := by unfold supBad; infer_instance
+instance (c : Cfg α) (s : State α) (i r0 : Nat) (d : Blk α) (raw : Bool) : Decidable (sigBad c s i r0 d raw) := by unfold sigBad; infer_instance
+
+/-- elements `verify_all_written` complains about -/
+def unwritten (c : Cfg α) (s : State α) : List Nat := (List.range c.n).filter (fun k => !(s.el k).written)
+
 def step (c : Cfg α) (s : State α) : Op α → State α × Out
-  | .writePvp i data =>
-    if s.closed then (s, .refused)
-    else if ¬ i < c.nchan then (s, .refused)
-    else if data.len ≠ (c.item i).size then (s, .refused)
-    else
-      let k := c.sigIdx i
-      let s1 : State α := if c.ampSF then { s with el := setEl s.el k { s.el k with canReg := true } } else s
-      if c.inMem then
-        if (s1.el i).bytes.isSome then (s1, .refused)
-        else ({ s1 with el := setEl s1.el i { s1.el i with bytes := some data, done := markRows (s1.el i).done 0 1 } }, .ok)
-      else ({ s1 with ws := ⟨false, (c.item i).off, data⟩ :: s1.ws,
-                      el := setEl s1.el i { s1.el i with written := true, done := markRows (s1.el i).done 0 1 } }, .ok)
-  | .writeSup j data =>
-    let i := c.supIdx j
-    if s.closed then (s, .refused)
-    else if ¬ j < c.nsup then (s, .refused)
-    else if data.len ≠ (c.item i).size then (s, .refused)
-    else if c.inMem then
-      if (s.el i).bytes.isSome then (s, .refused)
-      else ({ s with el := setEl s.el i { s.el i with bytes := some data, done := markRows (s.el i).done 0 1 } }, .ok)
-    else ({ s with ws := ⟨false, (c.item i).off, data⟩ :: s.ws,
-                   el := setEl s.el i { s.el i with written := true, done := markRows (s.el i).done 0 1 } }, .ok)
-  | .writeSig i r0 data raw =>
-    let k := c.sigIdx i
-    let it := c.item k
-    let e := s.el k
-    if ¬ i < c.nchan then (s, .refused)
-    else if !raw && !e.canReg then (s, .refused)
-    else if s.closed then (s, .refused)
-    else if it.rowBytes = 0 ∨ data.len = 0 ∨ data.len % it.rowBytes ≠ 0 ∨ it.rows < r0 + data.len / it.rowBytes then (s, .refused)
-    else
-      let nr := data.len / it.rowBytes
-      let cnt := e.count + data.len
-      if c.inMem then
-        ({ s with el := setEl s.el k { e with count := cnt, done := markRows e.done r0 nr,
-                                              store := ⟨false, r0 * it.rowBytes, data⟩ :: e.store } }, .ok)
-      else
-        ({ s with ws := ⟨false, it.off + r0 * it.rowBytes, data⟩ :: s.ws,
-                  el := setEl s.el k { e with count := cnt, done := markRows e.done r0 nr,
-                                              written := e.written || decide (cnt = it.size) } }, .ok)
+  | .writePvp i data => if pvpBad c s i data then (s, .refused) else putData c (markCanReg c s i) i data
+  | .writeSup j data => if supBad c s j data then (s, .refused) else putData c s (c.supIdx j) data
+  | .writeSig i r0 data raw => if sigBad c s i r0 data raw then (s, .refused) else (putChunk c s (c.sigIdx i) r0 data, .ok)
   | .flush => if s.closed then (s, .refused) else (flushCore c false s, .ok)
   | .close =>
     if s.closed then (s, .ok)
-    else
-      let s' := flushCore c true s
-      ({ s' with closed := true }, .report (!s'.hdrWritten) ((List.range c.n).filter (fun k => !(s'.el k).written)))
+    else ({ flushCore c true s with closed := true },
+          .report (!(flushCore c true s).hdrWritten) (unwritten c (flushCore c true s)))
 
 def run (c : Cfg α) (s : State α) : List (Op α) → State α
   | [] => s
